@@ -24,7 +24,7 @@ func init() {
 		ID: "C05",
 		Rule: "directed: every non-empty subset of events {put, cancel, buffer-close} (Get) / {signal, cancel, spurious broadcast, nobody-broadcasts+deadline} (WaitCond) is fired at every placement relative to the waiter: before the call, after the synchronous miss (buffer.getasync.spawned held), " +
 			"with the waiter held at waitcond.park (between its predicate and cond.Wait), after it parked; oracle: the call returns within 5000 heartbeats with the right result class, WaitCond returns nil only after its predicate returned true under the lock, a failed Get is followed by a successful Get of the same position. " +
-			"get-batch-trim: FixedBufferCleaner(max,target), the buffer pre-filled and read to its end, a Get parked, then ONE batched Put whose forced trim happens before the getter looks again (the buffer may end up exactly as long as before: length says nothing about whether something arrived): the Get returns the first value of the batch if it survived the trim, an error if it was evicted, never stays parked. " +
+			"get-during-first-use: on thousands of zero-value Buffers a NewConsumer+Get races other first calls (the lazy initialiser is double-checked); afterwards one Put: the parked Get returns it. get-batch-trim: FixedBufferCleaner(max,target), the buffer pre-filled and read to its end, a Get parked, then ONE batched Put whose forced trim happens before the getter looks again (the buffer may end up exactly as long as before: length says nothing about whether something arrived): the Get returns the first value of the batch if it survived the trim, an error if it was evicted, never stays parked. " +
 			"stress: getters with random cancels racing producers under seeded delays at waitcond.*. non-trivial = the intended window was entered (gate reached before the event fired) or operations overlapped; distinct = distinct (waiter, placement, event order, outcome) signatures",
 		Assumptions: []string{
 			"'promptly' is restated as 'within 5000 heartbeats' (a lost wake-up never recovers, so the bound is not critical)",
@@ -35,6 +35,7 @@ func init() {
 			{Name: "waitcond-directed", N: core.TierN(400, 16000), Batch: 40, Run: c05WaitCondDirected},
 			{Name: "get-stress", N: core.TierN(80, 3200), Batch: 5, Run: c05Stress},
 			{Name: "get-batch-trim", N: core.TierN(240, 9600), Batch: 40, Run: c05BatchTrim},
+			{Name: "get-during-first-use", N: core.TierN(12, 480), Batch: 3, Run: c05FirstUseGet},
 		},
 	})
 }
@@ -649,4 +650,63 @@ func c05Context(kind int) (context.Context, context.CancelFunc) {
 		return ctx, func() { cc(errC05Cause); cancel() }
 	}
 	return context.WithCancel(context.Background())
+}
+
+// c05FirstUseGet: a Get parks on a zero-value Buffer whose lazy initialisation is being raced by other first calls;
+// whatever the initialiser set up in the end, the Put that follows wakes that Get.
+func c05FirstUseGet(c *core.Ctx) {
+	n := 500
+	if c.Thorough() {
+		n = 1200
+	}
+	for i := 0; i < n && !c.Violated(); i++ {
+		b := new(bigbuff.Buffer)
+		type res struct {
+			v   interface{}
+			err error
+		}
+		out := make(chan res, 1)
+		ctx, cancel := context.WithCancel(context.Background())
+		start := make(chan struct{})
+		firstDone := make(chan struct{}, 8)
+		k := 2 + c.Rng.IntN(6)
+		for g := 0; g < k; g++ {
+			go func() { <-start; b.Size(); firstDone <- struct{}{} }()
+		}
+		go func() {
+			<-start
+			cons, err := b.NewConsumer()
+			firstDone <- struct{}{}
+			if err != nil {
+				out <- res{nil, err}
+				return
+			}
+			v, err := cons.Get(ctx)
+			if err == nil {
+				cons.Commit()
+			}
+			out <- res{v, err}
+		}()
+		close(start)
+		for g := 0; g <= k; g++ {
+			<-firstDone
+		}
+		time.Sleep(time.Duration(c.Rng.IntN(100)) * time.Microsecond)
+		b.Put(context.Background(), i)
+		r, _, got := core.AwaitChan(out, c05Bound)
+		if !got {
+			c.Violate("get-lost-wakeup", "buffer #%d: a Get made while %d other first calls raced the lazy initialiser is still parked %d heartbeats after the Put (buffer size %d)", i, k, c05Bound, b.Size())
+			c.SetDump(core.DumpAll())
+			cancel()
+			return
+		}
+		cancel()
+		if r.err != nil || r.v != i {
+			c.Violate("get-wrong-value", "buffer #%d: Get returned (%v, %v), want %d", i, r.v, r.err, i)
+		}
+		b.Close()
+	}
+	c.Op("first_use_race", n)
+	c.Nontrivial()
+	c.Sig("first-use-get", c.Index)
 }
